@@ -16,7 +16,7 @@ CLAIMED = {
 CLAIMED.update({
  "C03": ("Parts (a) and (b): the real TracerouteParallel/TracerouteSerial over a model driver for every schedule and bounded reply sequence produce a list of the stated shape; and the real clipResults and ToHops over an arbitrary slot table satisfying the engines' representation invariant, every occupancy/destination pattern for MaxTTL <= 5/8 and windows at 4, 128, 255: list shape (consecutive TTLs, ends at the lowest destination TTL, never empty, only the last entry is the destination) is proved. ", "5 C03"),
  "C05": ("The real drivers on a virtual clock: for every accepted hop in the C01 exploration the reported RTT is proved equal to (clock at the accepting ReceiveProbe) - (clock when that same TTL's probe was handed to the sink), hence non-negative, for arbitrary gaps between sends and an arbitrary flight time; the e2e probe returns the destination hop's RTT or 0; the ms conversion is zero at zero and positive on positive durations < 2^36 ns.", "5 C05"),
- "C06": ("Parts (a),(b): for every variant the bytes the real SendProbe hands to the sink are proved well formed (version, lengths, TTL/hop limit = probed TTL, protocol, run-constant endpoints, IPv4 header and L4 checksums, flags, identifier formula) and written to the target; the identifiers of two probes of a run differ - for every TTL position and every identifier base. Part (c): the real engines over a model driver send at most one probe per TTL in increasing order, spaced by SendDelay on the virtual clock, and at most one after a destination reply was accepted.", "5 C06"),
+ "C06": ("Parts (a),(b): for every variant the bytes the real SendProbe hands to the sink are proved well formed (version, lengths, TTL/hop limit = probed TTL, protocol, run-constant endpoints, IPv4 header and L4 checksums, flags, identifier formula) and written to the target; the identifiers of two probes of a run differ - for every TTL position and every identifier base. Part (c): the real engines over a model driver send at most one probe per TTL in increasing order, spaced by SendDelay on the virtual clock, and at most one after a destination reply was accepted. Part (d): the endpoints each protocol entry point reports equal those carried by every probe it emitted.", "5 C06"),
  "C11": ("Part (a): from any 32-bit allocator state three consecutive AllocPacketID ranges of arbitrary sizes are proved pairwise disjoint modulo 2^16 and consecutive echo identifiers distinct. Part (b): for each protocol two runs to the same target with the identities the code relies on (echo ids, local ports, sequence windows): every catalogue reply to a probe of one run is proved to be rejected by the other run's real matcher.", "5 C11"),
  "C16": ("The real Results.Normalize on symbolic documents: reachable iff address, hop-count statistics ordered and within run lengths, e2e statistics (sent/received/loss exact; min <= avg <= max; 0 <= jitter <= max-min) decided in IEEE-754 semantics by cvc5 for n=2 (quick) / 3 (thorough) samples; identifier path uuid->base64 injective (per 3-byte group). JSON round trip is outside (reflection).", "5 C16"),
  "C17": ("The real Results.RemovePrivateHops (and net.IP.IsPrivate/To4) on symbolic documents against an independent RFC 1918 / RFC 4193 predicate over 4-byte, 16-byte and IPv4-mapped addresses: private hops keep only TTL and position, other hops are the same objects untouched, counts unchanged; the HTTP flag parses as a boolean; the real RunTraceroute over model runs and a model resolver redacts after enrichment and normalisation (no name, RTT or flag of a private hop survives).", "5 C17"),
